@@ -204,6 +204,10 @@ class Prop(common.PropertyCheck):
         if impl['data'] == intact['data'] and impl['shape'] == intact['shape']:
             return self.keywords_oracle(case, impl, intact, layout, data, old, new)
         imp = self.implied(case['spec'], case['field'], new, layout)
+        # a TEXT offset that the loader must not even look at (the HEADER holds valid DATA offsets): the intact events are the only right answer
+        if case['field'] in ('$BEGINDATA', '$ENDDATA') and layout['header']['data_begin'] and layout['header']['data_end']:
+            return '%s corrupted %s -> %s while the HEADER holds the valid DATA offsets: loaded a different matrix %s %s (intact %s)' % (
+                case['field'], old, new, impl['shape'], str(impl['data'])[:60], intact['shape'])
         if imp is not None and imp[0] in (imp[1], imp[1] - 1):
             self.exclude('tolerated-ambiguous corruption (implied size == extent or extent-1)')
             return None
